@@ -36,6 +36,13 @@ def build_case(cid, rng, dynamic, force_async=False, no_send=False, probes=False
         if dynamic and not t.async_trait:
             t.async_trait = "#[::async_trait::async_trait]"
     has_async = any(m.is_async for m in t.methods)
+    if not dynamic:
+        # static delegation also serves `&mut self` methods (the impl-block fn still receives `&Impl<T>`)
+        for m in t.methods:
+            # (not for async methods: a future holding `&mut Impl<T>` is Send only if `T: Send`, which is rustc's rule
+            # and beyond what the generated impl may require of `T`)
+            if m.ret != "borrow_self" and not m.is_async and not force_async and rng.random() < 0.2:
+                m.recv_mut = True
     if dynamic:
         # K11 (recorded finding): dynamic impl blocks cannot return borrows from the dependency
         for m in t.methods:
@@ -133,7 +140,7 @@ def build_case(cid, rng, dynamic, force_async=False, no_send=False, probes=False
                     apps[0][1], m.name, ", ".join(["&papp"] + e1), m.name))
         D.append("    }")
     for ai, (aty, tgt, ctor) in enumerate(apps):
-        D.append("    let app%d = ::entrait::Impl::new(%s);" % (ai, ctor))
+        D.append("    let mut app%d = ::entrait::Impl::new(%s);" % (ai, ctor))
         D.append('    ::vrt::fact("app%d_addr", ::vrt::addr(&app%d)); ::vrt::fact("app%d_tn", ::vrt::tn(&app%d));' % (ai, ai, ai, ai))
         for mi, m in enumerate(t.methods):
             s1, e1, d1 = m.call_args(base, "%d_%dd" % (ai, mi))
